@@ -256,6 +256,12 @@ func init() {
 		p.pendingRecs = append(p.pendingRecs, pendingRec{idx, pieces})
 		return nil
 	}
+	// symxNoWitnessReplay(): passing paths of this harness depend on native nondeterminism (map order)
+	// and are not compared with a native run; counterexamples still are.
+	harnessAPI["symxNoWitnessReplay"] = func(fr *frame, args []value) value {
+		fr.i.path.noWitness = true
+		return nil
+	}
 	// symxIsSymbolic(): true under the engine, false natively
 	harnessAPI["symxIsSymbolic"] = func(fr *frame, args []value) value { return fr.i.path.concrete == nil }
 	// symxStub(name string, n int) int: a nondeterministic environment answer in [0,n)
